@@ -18,6 +18,7 @@ func configs(quick bool) []Cfg {
 	again := []string{"propose:min", "propose:max", "force:min", "probe", "dkgfast", "block", "jumpexec", "expire"}
 	staleSig := []string{"propose:max", "dkgfast", "stale", "sig", "block", "jumpexec"}
 	frac := []string{"propose:frac", "force:frac", "probe", "dkgfast", "sig", "block", "jumpfrac"}
+	overlap := []string{"propose:max", "dkgfast", "sig", "req", "act", "block"}
 	if quick {
 		return []Cfg{
 			// A: the whole life cycle of one proposal at round granularity, all timings around the exec time
@@ -49,6 +50,10 @@ func configs(quick bool) []Cfg {
 			// I: exec times with a sub-second part and block times in the same second just before / at them
 			{Name: "sub-second-exec-time", CurN: 2, CurT: 1, IncN: 2, IncT: 1, Spare: true, SigningPeriod: 3, MaxSigningAttempt: 1, CreationPeriod: 8,
 				InitDE: 3, MaxProposals: 1, MaxReq: 0, MaxTransitionSec: 20, FeePerSigner: 7, Events: frac, Depth: 8},
+			// J: overlapping membership (current {A,B,C} t=2, incoming {A,B}): a request mirrored to the incoming
+			// group whose copy nobody signs; (de)activations of one membership must not touch the other
+			{Name: "overlapping-membership", CurN: 3, CurT: 2, IncN: 2, IncT: 2, SameAccounts: true, SigningPeriod: 1, MaxSigningAttempt: 1, CreationPeriod: 8,
+				InitDE: 4, MaxProposals: 1, MaxReq: 2, MaxTransitionSec: 90, FeePerSigner: 5, Events: overlap, Depth: 9},
 		}
 	}
 	lifeMsg := []string{"propose:max", "probe", "dkg", "dkgmsg", "spoil", "sigany", "block", "jumpexec"}
@@ -82,6 +87,8 @@ func configs(quick bool) []Cfg {
 			InitDE: 6, MaxProposals: 2, MaxReq: 0, MaxTransitionSec: 15, FeePerSigner: 7, Events: append(append([]string{}, staleSig...), "sigany", "probe", "jump"), Depth: 11},
 		{Name: "sub-second-exec-time", CurN: 2, CurT: 2, IncN: 2, IncT: 1, Spare: true, SigningPeriod: 3, MaxSigningAttempt: 1, CreationPeriod: 8,
 			InitDE: 3, MaxProposals: 2, MaxReq: 1, MaxTransitionSec: 20, FeePerSigner: 7, Events: append(append([]string{}, frac...), "req", "jump"), Depth: 8},
+		{Name: "overlapping-membership", CurN: 3, CurT: 2, IncN: 3, IncT: 2, SameAccounts: true, SigningPeriod: 2, MaxSigningAttempt: 2, CreationPeriod: 8,
+			InitDE: 6, MaxProposals: 1, MaxReq: 2, MaxTransitionSec: 90, FeePerSigner: 5, Events: append(append([]string{}, overlap...), "sigany", "reqgov", "jumpexec"), Depth: 11},
 	}
 }
 
@@ -97,7 +104,7 @@ func init() {
 				"key generation that completes in a block whose time is already past the exec time counts as too late (the transition is dropped); completing exactly at the exec time is in time",
 				"a transition whose hand-over signing cannot be created (too few eligible current members) or fails is dropped at that block end, not only at the exec time",
 				"member list: exactly the current group's members whenever no transition awaits execution (so in particular right after an execution); while one awaits execution only 'superset of current, subset of current+incoming' is asserted",
-				"CurrentGroup.ActiveTime and the is_active flags of members are not asserted (activity is C10's subject)",
+				"CurrentGroup.ActiveTime is not asserted; activity flags (tss record and bandtss mirror) of every membership address/group are only asserted to change for a reason of their own group: off only at a block end where the member missed a signing of that group whose period ended (expiration queue read back as given), on only by its own MsgActivate; whether a due deactivation happens is C10's subject",
 				"block rewards to members switched off (bandtss RewardPercentage=0) so that balances isolate signing fees; requester always funded; fee limit = exact price (limits are C13's subject)",
 				"Tx seam = ValidateBasic + message-router handler in a cache context; the authority check of the governance messages is not exercised (sender is always the authority)",
 				"LastCommitHash is empty in the harness, so a group's DKG context depends only on its id; member-side DKG material is generated once per configuration",
@@ -112,6 +119,7 @@ func init() {
 				"req-during-handover:also-put-to-incoming-group", "req-during-handover:incoming-group-unable",
 				"current-group-signing-success:paid", "current-group-signing-success:paid:after-execution", "incoming-group-signing-success:unpaid",
 				"act:ok",
+				"member-deactivated-after-missing-signing:current-group", "member-deactivated-after-missing-signing:incoming-group",
 			}
 			// internal caps per configuration (never an oracle): a configuration that hits its cap is
 			// reported as exhaustive:false and the next one still runs
